@@ -289,7 +289,15 @@ class CodeBuilder:
                 else:
                     return field.default_factory
         else:
-            return self.namespace.get(name, MISSING)
+            default = self.namespace.get(name, MISSING)
+            if default is MISSING:
+                # a field that is only annotated again keeps the default
+                # its parent left as a class attribute (dataclasses looks
+                # it up the same way)
+                default = getattr(self.cls, name, MISSING)
+                if isinstance(default, (Field, types.MemberDescriptorType)):
+                    default = MISSING
+            return default
 
     def add_type_modules(self, *types_: typing.Type) -> None:
         for t in types_:
